@@ -57,6 +57,66 @@ def statusStr : Status → String
   | .connecting => "connecting"
   | .disconnected r => s!"disconnected:{r.name}"
 
+/-! wire terms (E1) -/
+def showTerm : Packet → String
+  | .smallReliable seq ch msgs =>
+    s!"SR {seq} {ch} {msgs.length}" ++ String.join (msgs.map fun (id, m) => s!" {id} {toHex m}")
+  | .smallUnreliable seq ch msgs =>
+    s!"SU {seq} {ch} {msgs.length}" ++ String.join (msgs.map fun m => s!" {toHex m}")
+  | .reliableSlice seq ch sl => s!"RS {seq} {ch} {sl.messageId} {sl.sliceIndex} {sl.numSlices} {toHex sl.payload}"
+  | .unreliableSlice seq ch sl => s!"US {seq} {ch} {sl.messageId} {sl.sliceIndex} {sl.numSlices} {toHex sl.payload}"
+  | .ack seq ranges => s!"AK {seq} {ranges.length}" ++ String.join (ranges.map fun (s, e) => s!" {s} {e}")
+
+def u64? (s : String) : Option Nat := do
+  let n ← s.toNat?
+  if n < 2 ^ 64 then some n else none
+
+def u8? (s : String) : Option Nat := do
+  let n ← s.toNat?
+  if n < 256 then some n else none
+
+def parseRelMsgs : Nat → List String → Option (List (Nat × Bytes))
+  | 0, [] => some []
+  | n + 1, id :: h :: rest => do
+    let id ← u64? id
+    let m ← fromHex h
+    let r ← parseRelMsgs n rest
+    pure ((id, m) :: r)
+  | _, _ => none
+
+def parseUnrelMsgs : Nat → List String → Option (List Bytes)
+  | 0, [] => some []
+  | n + 1, h :: rest => do
+    let m ← fromHex h
+    let r ← parseUnrelMsgs n rest
+    pure (m :: r)
+  | _, _ => none
+
+def parseRanges : Nat → List String → Option (List AckRange)
+  | 0, [] => some []
+  | n + 1, s :: e :: rest => do
+    let s ← u64? s
+    let e ← u64? e
+    let r ← parseRanges n rest
+    pure ((s, e) :: r)
+  | _, _ => none
+
+def parseTerm : List String → Option Packet
+  | "SR" :: seq :: ch :: n :: rest => do
+    let msgs ← parseRelMsgs (← n.toNat?) rest
+    pure (.smallReliable (← u64? seq) (← u8? ch) msgs)
+  | "SU" :: seq :: ch :: n :: rest => do
+    let msgs ← parseUnrelMsgs (← n.toNat?) rest
+    pure (.smallUnreliable (← u64? seq) (← u8? ch) msgs)
+  | ["RS", seq, ch, id, idx, n, h] => do
+    pure (.reliableSlice (← u64? seq) (← u8? ch) ⟨← u64? id, ← u64? idx, ← u64? n, ← fromHex h⟩)
+  | ["US", seq, ch, id, idx, n, h] => do
+    pure (.unreliableSlice (← u64? seq) (← u8? ch) ⟨← u64? id, ← u64? idx, ← u64? n, ← fromHex h⟩)
+  | "AK" :: seq :: n :: rest => do
+    let r ← parseRanges (← n.toNat?) rest
+    pure (.ack (← u64? seq) r)
+  | _ => none
+
 structure RWorld where
   server : Option Server := none
   clients : SMap Conn := []
@@ -271,6 +331,17 @@ def step (w : RWorld) (toks : List String) : Option (RWorld × String) :=
       | some c => do let n ← c.availableMemory ch; pure (s, toString n)
     | _, _ => (w, "bad-op")
   | ["note", _] => some (w, "ok")
+  | "enc" :: term => some <| match parseTerm term with
+    | none => (w, "bad-op")
+    | some p => match p.toBytes C.SER_BUFFER with
+      | .ok b => (w, toHex b)
+      | .err e => (w, s!"err:{e.name}")
+      | .panic _ => ({ w with dead := true }, "panic")
+  | ["dec", h] => some <| match fromHex h with
+    | none => (w, "bad-op")
+    | some b => match Packet.fromBytes b with
+      | .ok p => (w, showTerm p)
+      | .error e => (w, s!"err:{e.name}")
   | ["setc", h] => some <| match h.toNat? with
     | some h => withClient w h fun c => pure (c.setConnected, "ok")
     | none => (w, "bad-op")
